@@ -40,15 +40,16 @@ theorem ttl_effective (rj : Job) (cfg : ExecConfig) :
   cases rj.ttlSecondsAfterFinished <;> cases cfg.defaultTTLSecondsAfterFinished <;> rfl
 
 /-- The finalizer is dropped only in a sync in which no task listed in the status could be
-found: neither in the pod cache, nor (for a task not recorded finished) on the server. -/
+found: neither in the pod cache nor — confirmed for every listed task, finished or not — on the
+server. -/
 theorem finalizer_removed_only_when_gone (s : Sys) (jo : JobObj) (rj : Job) (s' : Sys) (rj' : Job)
     (h : handleFinalizer s jo rj true = (s', some (rj', false))) :
-    rj.deletionTimestamp.isSome = true ∧ tasksForRefs s rj.status.tasks = [] := by
+    rj.deletionTimestamp.isSome = true ∧ tasksForRefsConfirmed s rj.status.tasks = [] := by
   unfold handleFinalizer at h
   by_cases hdel : rj.deletionTimestamp.isNone = true
   · simp [hdel] at h
   · simp only [hdel] at h
-    by_cases ht : (tasksForRefs s rj.status.tasks).isEmpty = true
+    by_cases ht : (tasksForRefsConfirmed s rj.status.tasks).isEmpty = true
     · refine ⟨?_, by simpa using ht⟩
       cases hdt : rj.deletionTimestamp with
       | none => simp [hdt] at hdel
@@ -57,13 +58,37 @@ theorem finalizer_removed_only_when_gone (s : Sys) (jo : JobObj) (rj : Job) (s' 
       simp only [Bool.not_true, Bool.false_eq_true, ↓reduceIte, Bool.not_false] at h
       split at h <;> simp at h
 
+/-- … which means that no task listed in the status exists on the server any more: the Job
+object can only disappear (its last finalizer dropped) after its tasks are gone — whatever the
+pod cache holds or lacks. -/
+theorem confirmed_empty_means_gone (s : Sys) (refs : List TaskRef)
+    (h : tasksForRefsConfirmed s refs = []) :
+    ∀ r ∈ refs, liveGetTask s r.name = none := by
+  intro r hr
+  unfold tasksForRefsConfirmed at h
+  rw [List.filterMap_eq_nil_iff] at h
+  have := h r hr
+  unfold getTaskForRefConfirmed at this
+  split at this
+  · cases this
+  · exact this
+
+theorem job_gone_implies_tasks_gone (s : Sys) (jo : JobObj) (rj : Job) (s' : Sys) (rj' : Job)
+    (h : handleFinalizer s jo rj true = (s', some (rj', false))) :
+    ∀ r ∈ rj.status.tasks, ∀ p, findPod s.pods r.name = some p → podTask p = none := by
+  intro r hr p hp
+  have := confirmed_empty_means_gone s _ (finalizer_removed_only_when_gone s jo rj s' rj' h).2 r hr
+  unfold liveGetTask at this
+  rw [hp] at this
+  exact this
+
 /-- … and a task that is listed, not recorded finished, and still exists on the server is
 always found (live GET), so the finalizer stays. -/
 theorem existing_unfinished_task_found (s : Sys) (ref : TaskRef) (p : PodObj) (t : Task)
     (hfin : ref.finishTimestamp = none) (hp : findPod s.pods ref.name = some p)
     (hc : findPod s.podCache ref.name = none) (ht : podTask p = some t) :
     getTaskForRef s ref = some t := by
-  unfold getTaskForRef
+  unfold getTaskForRef liveGetTask
   simp [hc, hfin, hp, ht]
 
 example : ∃ s jo rj, (handleTTL s jo rj).1.calls ≠ s.calls := by
